@@ -29,7 +29,9 @@ EXTENDS Affine, TLC, Json
 CONSTANTS Laws,
           Mats, MatsFew, MatsOne,   \* integer matrices <<a,b,c,d,e,f>>; every one is used at every pair of scales
           Pts, Rects,         \* integer points / rectangles; used at every scale
-          Scales              \* exponents of T the inputs are scaled by (a subset of -1..1)
+          Scales,             \* exponents of T the inputs are scaled by (a subset of -1..1)
+          OffScales,          \* exponents of T for far-away positions in the rect and norm laws (a subset of 2..3)
+          RectOffs, Extents   \* integer pairs: where a far-away rectangle sits / how wide and high it is
 
 \* ------------------------------------------------------------------ the number ring
 IDX == 1..7
@@ -108,6 +110,15 @@ ScaleVec(v, s) == [i \in DOMAIN v |-> Mono(v[i], s)]
 SMats(B) == {ScaleMat(m, s, u) : m \in B, s \in Scales, u \in Scales}
 SPts == {ScaleVec(p, s) : p \in Pts, s \in Scales}
 SRects == {ScaleVec(r, s) : r \in Rects, s \in Scales}
+\* far away: translations, points and whole rectangles at T^2, T^3 (10^12, 10^18: beyond 2^31, and with a
+\* coefficient >= 10 beyond 2^63), so that all four corner images lie on one side of any would-be sentinel; a
+\* rectangle is an offset at one magnitude plus an extent at another:  <<X, Y, X + w, Y + h>>
+SMatsFar(B) == {ScaleMat(m, s, u) : m \in B, s \in Scales, u \in Scales \cup OffScales}
+FarPts == {ScaleVec(p, k) : p \in Pts, k \in OffScales}
+FarRects == {<<Mono(o[1], kx), Mono(o[2], ky), NAdd(Mono(o[1], kx), Mono(e[1], se)), NAdd(Mono(o[2], ky), Mono(e[2], se))>> :
+               o \in RectOffs, kx \in OffScales, ky \in OffScales, e \in Extents, se \in Scales}
+\* every product the helpers form with these arguments stays inside the seven exponents
+FitsWith(m, v) == \A i \in 1..4 : \A j \in DOMAIN v : Fits(m[i], v[j])
 NegV(v) == <<NSub(Z, v[1]), NSub(Z, v[2])>>
 
 VARIABLES law, env, pc
@@ -131,9 +142,11 @@ Env0(l) ==
     [] l = "assoc"     -> {[a |-> a, b |-> b, c |-> c] : a \in SMats(Mats), b \in SMats(MatsOne), c \in SMats(MatsFew)}
     [] l = "compose"   -> {[m1 |-> m1, m0 |-> m0, p |-> p] : m1 \in SMats(Mats), m0 \in SMats(MatsOne), p \in SPts}
     [] l = "translate" -> {[m |-> m, v |-> v, nv |-> NegV(v), T |-> TransMS(v), O |-> OriginS] : m \in SMats(Mats), v \in SPts}
-    [] l = "norm"      -> {[m |-> m, v |-> v, O |-> OriginS] : m \in SMats(Mats), v \in SPts}
-    [] l = "rect"      -> {[m |-> m, r |-> r, c1 |-> <<r[1], r[2]>>, c2 |-> <<r[3], r[2]>>,
-                            c3 |-> <<r[3], r[4]>>, c4 |-> <<r[1], r[4]>>] : m \in SMats(Mats), r \in SRects}
+    [] l = "norm"      -> {e \in {[m |-> m, v |-> v, O |-> OriginS] : m \in SMatsFar(Mats), v \in SPts \cup FarPts} :
+                               FitsWith(e.m, e.v)}
+    [] l = "rect"      -> {e \in {[m |-> m, r |-> r, c1 |-> <<r[1], r[2]>>, c2 |-> <<r[3], r[2]>>,
+                                    c3 |-> <<r[3], r[4]>>, c4 |-> <<r[1], r[4]>>] :
+                                      m \in SMatsFar(Mats), r \in SRects \cup FarRects} : FitsWith(e.m, e.r)}
 
 Init == law \in Laws /\ env \in Env0(law) /\ pc = 1
 Done == pc > Len(Prog(law))
